@@ -139,11 +139,53 @@ func formatRank(f string) int {
 	return 9
 }
 
-// diffClass names what differs between two canonical JSON texts at the
-// coarsest useful level (deterministic: members are visited in sorted order).
-// want and got are JSON texts.
+// typeClass describes a type of grammar G, abstracting nothing but names of fields.
+func typeClass(t gschema.Term) string {
+	s := ""
+	switch t.K {
+	case "scalar":
+		s = t.A
+		if t.Constr {
+			s += "[c]"
+		}
+	case "array", "map":
+		s = t.K + " of " + typeClass(t.Sub[len(t.Sub)-1])
+	case "struct":
+		var p []string
+		for i, f := range t.Fields {
+			q := ""
+			if !f.Required {
+				q = "?"
+			}
+			p = append(p, f.Name+q+":"+typeClass(t.Sub[i]))
+		}
+		s = "{" + strings.Join(p, ",") + "}"
+	case "disj":
+		var p []string
+		for _, b := range t.Sub {
+			p = append(p, typeClass(b))
+		}
+		s = "(" + strings.Join(p, "|") + ")"
+		if t.Disc {
+			s += "@disc"
+		}
+	default:
+		s = t.K + "(" + t.A + ")"
+	}
+	if t.Nullable {
+		s += "?"
+	}
+	if t.Default != "" {
+		s += "=default"
+	}
+	return s
+}
+
+// diffClass names the first difference (members visited in sorted order, so
+// the result is deterministic) between two JSON texts together with the
+// schema type of the offending position: "<what> @ <required|optional|item|value> <type>".
 func diffClass(s gschema.Schema, want, got string) string {
-	return diffValue(lenientValue(s, want), lenientValue(s, got))
+	return diffTerm(s, s.Objs[0].T, "root", lenientValue(s, want), lenientValue(s, got), 3)
 }
 
 func sortedKeys(m map[string]any) []string {
@@ -155,38 +197,83 @@ func sortedKeys(m map[string]any) []string {
 	return ks
 }
 
-func diffValue(a, b any) string {
+func diffTerm(s gschema.Schema, t gschema.Term, pos string, a, b any, budget int) string {
+	at := " @ " + pos + " " + typeClass(t)
+	if t.K == "ref" {
+		if target, ok := s.Lookup(strings.TrimPrefix(t.A, gschema.Pkg+".")); ok && budget > 0 {
+			d := diffTerm(s, target, pos, a, b, budget-1)
+			if d == "" {
+				return ""
+			}
+			if i := strings.Index(d, " @ "+pos+" "); i >= 0 && !strings.Contains(d[:i], " @ ") {
+				// the difference is at this very position: name it by the reference
+				return d[:i] + at
+			}
+			return d
+		}
+	}
+	if t.K == "disj" {
+		for _, br := range t.Sub {
+			if _, isObj := a.(map[string]any); isObj && (br.K == "ref" || br.K == "struct") {
+				if d := diffTerm(s, br, pos, a, b, budget); d == "" {
+					return ""
+				}
+			}
+		}
+	}
 	switch x := a.(type) {
 	case map[string]any:
 		y, ok := b.(map[string]any)
 		if !ok {
-			return "object became " + valueClass(b)
+			return valueClass(a) + " became " + valueClass(b) + at
+		}
+		sub := func(k string) (gschema.Term, string) {
+			switch t.K {
+			case "struct":
+				for i, f := range t.Fields {
+					if f.Name == k {
+						if f.Required {
+							return t.Sub[i], "required"
+						}
+						return t.Sub[i], "optional"
+					}
+				}
+			case "map":
+				return t.Sub[1], "value"
+			}
+			return gschema.Term{K: "scalar", A: "any"}, "member"
 		}
 		for _, k := range sortedKeys(x) {
+			ft, fp := sub(k)
 			w, ok := y[k]
 			if !ok {
-				return "member dropped: " + valueClass(x[k])
+				return "member dropped: " + valueClass(x[k]) + " @ " + fp + " " + typeClass(ft)
 			}
-			if d := diffValue(x[k], w); d != "" {
+			if d := diffTerm(s, ft, fp, x[k], w, budget); d != "" {
 				return d
 			}
 		}
 		for _, k := range sortedKeys(y) {
 			if _, ok := x[k]; !ok {
-				return "member added: " + valueClass(y[k])
+				ft, fp := sub(k)
+				return "member added: " + valueClass(y[k]) + " @ " + fp + " " + typeClass(ft)
 			}
 		}
 		return ""
 	case []any:
 		y, ok := b.([]any)
 		if !ok {
-			return "array became " + valueClass(b)
+			return valueClass(a) + " became " + valueClass(b) + at
 		}
 		if len(x) != len(y) {
-			return "array length changed"
+			return "array length changed" + at
+		}
+		et := gschema.Term{K: "scalar", A: "any"}
+		if t.K == "array" {
+			et = t.Sub[0]
 		}
 		for i := range x {
-			if d := diffValue(x[i], y[i]); d != "" {
+			if d := diffTerm(s, et, "item", x[i], y[i], budget); d != "" {
 				return d
 			}
 		}
@@ -199,9 +286,9 @@ func diffValue(a, b any) string {
 	if ca != cb {
 		ka, kb := valueClass(a), valueClass(b)
 		if ka == kb {
-			return ka + " value changed"
+			return ka + " value changed" + at
 		}
-		return ka + " became " + kb
+		return ka + " became " + kb + at
 	}
 	return ""
 }
